@@ -13,8 +13,21 @@ COMPLETE = ["build", "block", "bfs", "dfs", "scc", "aseeds"]
 PRE = [[False, False], [True, False], [False, True]]  # (greedy_asp_minification, simulation_minification)
 
 
+def same_motifs_one_maa(bnet, valuations):
+    """Shape filter of families.same_motif_cond_nets (brute force): under all the given controller valuations the rest of the network has the SAME
+    stable motifs (maximal trap spaces), under at least one of them it has a motif-avoidant attractor and under at least one it has none."""
+    net = oracle.Net.from_bnet(bnet)
+    motifs, maa = set(), set()
+    for val in valuations:
+        sub = net.restrict(net.percolate(val))
+        motifs.add(tuple(sorted(oracle.skey(m) for m in sub.max_traps_in({}))))
+        maa.add(bool(sub.motif_avoidant()))
+    return len(motifs) == 1 and maa == {True, False}
+
+
 def cases(seed, tier):
-    yield from families.interleave((net_cases(families.block_nets(seed, tier)), 2), (net_cases(families.network_family(seed, tier, hand_max_vars=10)), 6))
+    yield from families.interleave((net_cases(families.same_motif_cond_nets(seed, tier, accept=same_motifs_one_maa)), 2),
+                                   (net_cases(families.block_nets(seed, tier)), 2), (net_cases(families.network_family(seed, tier, hand_max_vars=10)), 6))
 
 
 def net_cases(nets):
